@@ -157,6 +157,30 @@ class Encoder:
                 c, s = c * c2 - s * s2, c * s2 + s * c2
         return c, s
 
+    def lipschitz_lemmas(self, max_pairs=8):
+        """over mode: chord <= arc for unit-circle pairs of single-variable real atoms:
+        (c_i - c_j)^2 + (s_i - s_j)^2 <= (theta_i - theta_j)^2  and  (c_i - 1)^2 + s_i^2 <= theta_i^2.
+        True facts about cos/sin that tie the abstraction to the angle values where Cirq uses tolerances."""
+        if self.mode != 'over':
+            return []
+        items = []
+        for (atom, q), (c, s_) in self.pairs.items():
+            mono, unit = atom
+            if self._is_int_atom(atom) or not (isinstance(c, z3.ArithRef) and z3.is_const(c)):
+                continue
+            if len(mono) != 1 or mono[0][1] != 1:
+                continue
+            kappa = rv(math.pi) if unit == 'pi' else z3.RealVal(1)
+            theta = kappa * rv(q) * self.zvar(mono[0][0])
+            items.append((theta, c, s_))
+        items = items[:max_pairs]
+        out = []
+        for i, (th, c, s_) in enumerate(items):
+            out.append((c - 1) * (c - 1) + s_ * s_ <= th * th)
+            for th2, c2, s2 in items[i + 1 :]:
+                out.append((c - c2) * (c - c2) + (s_ - s2) * (s_ - s2) <= (th - th2) * (th - th2))
+        return out
+
     # ---- SNum -> (re, im) ------------------------------------------------------------
     def snum(self, sn):
         re, im = [], []
